@@ -106,6 +106,13 @@ def main():
             res.evaluations += res2.evaluations
             res.nontrivial |= res2.nontrivial
 
+        if os.environ.get("VERIF_DEBUG"):
+            import collections
+            print("violation keys:", collections.Counter(str(v["key"]) + " | " + v["what"] for v in res.violations).most_common(40), file=sys.stderr)
+            print("disagreement streams:", collections.Counter(d["stream"] for d in res.disagreements).most_common(40), file=sys.stderr)
+            with open("/tmp/verif-debug-%s.json" % prop, "w") as fdbg:
+                json.dump({"violations": res.violations[:300], "disagreements": res.disagreements[:300]}, fdbg, indent=1, default=core.jdefault)
+
         # ---- decide ------------------------------------------------------------------------------
         known = findings.open_for(prop)
         known_keys = {f["key"]: f for f in known}
